@@ -36,10 +36,15 @@ Mtu(e) == IF e = "b" THEN Fld(cfg, "mtu_b", cfg.mtu) ELSE cfg.mtu     \* link MT
 \* and e may advertise a larger window in between (its application reads): such a segment is judged against the edge e had
 \* advertised by the time the harness saw the segment PROCESSED (event `processed`, synchronous wire with procev), where it
 \* is settled for good; on a wire without that event any later advertisement that covers its start clears it (weak rule).
-OkInit == [e \in E |-> [ok |-> 0, sus |-> {}]]
-Settle(o, edge, final) == [ok |-> LET good == {s \in o.sus : s[1] < edge} IN
-                                    IF good = {} THEN o.ok ELSE Max2(o.ok, CHOOSE m \in {s[2] : s \in good} : \A s \in good : s[2] <= m),
-                           sus |-> IF final THEN {} ELSE {s \in o.sus : s[1] >= edge}]
+\* okEnd[e].lastw: the window field of e's latest ACK (-1: none yet), for "the window reopens once the application reads again"
+OkInit == [e \in E |-> [ok |-> 0, sus |-> {}, lastw |-> -1]]
+Settle(o, edge, final) == [o EXCEPT !.ok = LET good == {s \in o.sus : s[1] < edge} IN
+                                            IF good = {} THEN o.ok ELSE Max2(o.ok, CHOOSE m \in {s[2] : s \in good} : \A s \in good : s[2] <= m),
+                                    !.sus = IF final THEN {} ELSE {s \in o.sus : s[1] >= edge}]
+\* C04, last clause: e's application has read everything that arrived in order (its receive queue is empty), it is still
+\* reading, and yet the latest window e advertised is zero: the window did not reopen.  Judged when the scenario is over
+\* (the update is sent by the protocol goroutine right after the read; `end` and `quiesce` are logged much later).
+WindowReopened(e) == ~(okEnd[e].lastw = 0 /\ delivered[e] = contig[e] /\ finArr[e] < 0 /\ ~eos[e] /\ ~rstop[e] /\ err[e] = "")
 C5Init == [e \in E |-> C5Init0]
 Zero == [e \in E |-> 0]
 Neg == [e \in E |-> -1]
@@ -155,7 +160,8 @@ Emit == /\ IsEvent("emit") /\ "bad" \notin DOMAIN Ev
            /\ ws' = [ws EXCEPT ![e] = IF syn THEN Ev.ws ELSE @]
            /\ c5' = [c5 EXCEPT ![e] = LET c1 == IF len > 0 THEN C5AfterEmit(c5[e], off, len, Ev.t, emitMax[e]) ELSE c5[e]
                                        IN IF fin THEN [c1 EXCEPT !.finSent = TRUE] ELSE c1]
-           /\ okEnd' = [okEnd EXCEPT ![e] = IF ack /\ ~rst /\ ~Fld(cfg, "procev", FALSE) THEN Settle(@, Max2(advEdge[e], edge), FALSE) ELSE @]
+           /\ okEnd' = [okEnd EXCEPT ![e] = LET o1 == IF ack /\ ~rst /\ ~Fld(cfg, "procev", FALSE) THEN Settle(@, Max2(advEdge[e], edge), FALSE) ELSE @
+                                            IN IF ack /\ ~rst /\ ~syn THEN [o1 EXCEPT !.lastw = Ev.wnd] ELSE o1]
         /\ UNCHANGED <<cfg, up, written, offer, shut, delivered, eos, rstop, contig, pcontig, parked, finArr, maxEdge, err, faults>>
 \* synchronous wire: the harness saw the segment queue of e empty and its protocol goroutine idle after the last hand-over
 Processed == /\ IsEvent("processed")
@@ -204,8 +210,11 @@ Quiesce == /\ IsEvent("quiesce")
            /\ On("C02") => \/ ~(Owed("a") \/ Owed("b"))
                            \/ Failed(Ev.a) \/ Failed(Ev.b)
                            \/ Fld(cfg, "kf_f1", FALSE)       \* known finding F1: scenario built to lose the window update after a zero window
+           /\ On("C04") => \A e \in E : Real(e) => WindowReopened(e)
            /\ Same
 End == /\ IsEvent("end")
+       \* (the pair driver logs `end` at least 30 ms after the applications finished; the raw-peer driver ends with its script)
+       /\ (On("C04") /\ ~Fld(cfg, "raw_b", FALSE)) => \A e \in E : WindowReopened(e)
        /\ (On("C02") /\ Ev.why = "done") =>
               /\ (err["a"] = "" /\ err["b"] = "") => (Complete("a") /\ Complete("b"))
               \* closing exchange without loss: both endpoints closed, no error
